@@ -18,3 +18,6 @@ func VerifC12KeyOrder(keys []*dns.DNSKEY) []*dns.DNSKEY {
 
 // VerifC12DSOrder is the order in which the validator walks the DS records of one set.
 func VerifC12DSOrder(records []dns.RR) []*dns.DS { return uniqueSortedDSRecords(records) }
+
+// VerifC12MaxNSEC3HashMemoEntries is the entry ceiling of one request tree's NSEC3 hash memo.
+func VerifC12MaxNSEC3HashMemoEntries() int { return maxNSEC3HashMemoEntries }
